@@ -75,6 +75,9 @@ def cases(shard, tier):
                         if src == 'struct' and len(set(rows)) > 1:
                             continue        # one structured array feeds all frames: equal row counts only
                         yield {'kind': 'frames', 'rows': list(rows), 'names': names, 'src': src}
+                        if nfr > 1:
+                            # every frame's channels in a CHANNEL set of their own (data set names stay file-wide unique)
+                            yield {'kind': 'frames', 'rows': list(rows), 'names': names, 'src': src, 'chsets': 'per-frame'}
                         # a row window that lies inside every frame's data, and the input chunk size, apply per frame
                         for win in ((0, 1), (1, 2), (1, None)):
                             if (win[1] or win[0] + 1) > min(rows):
@@ -153,6 +156,8 @@ def frames_spec(c):
         if c['src'] == 'inline':
             kwa['data'], kwb['data'] = a, b
         # dataset names as the documented rule makes them unique: NAME, NAME__1, NAME__2
+        if c.get('chsets') == 'per-frame' and f > 0:
+            kwa['set_name'] = kwb['set_name'] = f'CHANNELS-OF-FRAME-{f}'
         ops.append(S.op_add('channel', f'CI{f}', idx_name, **kwa))
         ops.append(S.op_add('channel', f'CV{f}', val_name, **kwb))
         ops.append(S.op_add('frame', f'F{f}', f'FRAME{f}', channels=[{'$ref': f'CI{f}'}, {'$ref': f'CV{f}'}]))
